@@ -8,9 +8,9 @@
   "replace": [],
   "assumed": [],
   "mode": "bounded",
-  "bounds": "every buffer of N bytes or fewer, every content (N = 24 quick, 48 thorough); loops unwound 50 with unwinding assertions; over-reads decided by object bounds (buffer = tail of a static array), reads before the cursor only by the native replay",
+  "bounds": "every buffer of N bytes or fewer, every content (N = 24 quick, 32 thorough; 48 did not finish in 600 s); loops unwound 50 with unwinding assertions; over-reads decided by object bounds (buffer = tail of a static array), reads before the cursor only by the native replay",
   "defs_quick": ["BUFN=24"],
-  "defs_thorough": ["BUFN=48"],
+  "defs_thorough": ["BUFN=32"],
   "unwind": 50,
   "unwindset": ["checkAsnOidDatabase.0:6", "memcmp.0:16"],
   "native_replay": true,
